@@ -1,0 +1,165 @@
+//go:build verif
+
+package lsm
+
+import (
+	"errors"
+	"time"
+
+	"github.com/feichai0017/NoKV/kv"
+	"github.com/feichai0017/NoKV/lsm/compact"
+	"github.com/feichai0017/NoKV/utils"
+)
+
+// Accessors for the external verification harness (build tag "verif" only).
+
+// VerifEntry is one internal record of a memtable or table.
+type VerifEntry struct {
+	Key       []byte // internal key (CF prefix + user key + 8-byte inverted version)
+	Value     []byte
+	Meta      byte
+	ExpiresAt uint64
+}
+
+// VerifTable describes one SSTable.
+type VerifTable struct {
+	FID        uint64
+	MinKey     []byte
+	MaxKey     []byte
+	MaxVersion uint64
+	Entries    []VerifEntry
+}
+
+// VerifLevel describes one level: main tables in lookup order, ingest shards
+// in sh.tables order, and per shard the fid order of sh.ranges.
+type VerifLevel struct {
+	Level  int
+	Main   []VerifTable
+	Shards [][]VerifTable
+	Ranges [][]uint64
+}
+
+// VerifMem describes one memtable.
+type VerifMem struct {
+	SegmentID uint32
+	Entries   []VerifEntry
+}
+
+// VerifLayout is a snapshot of every source the read path consults.
+type VerifLayout struct {
+	Active     VerifMem
+	Immutables []VerifMem // oldest first, as in lsm.immutables
+	Levels     []VerifLevel
+	MaxFID     uint64
+}
+
+func verifDrain(it utils.Iterator) []VerifEntry {
+	var out []VerifEntry
+	if it == nil {
+		return nil
+	}
+	defer func() { _ = it.Close() }()
+	for it.Rewind(); it.Valid(); it.Next() {
+		e := it.Item().Entry()
+		out = append(out, VerifEntry{Key: kv.SafeCopy(nil, e.Key), Value: kv.SafeCopy(nil, e.Value), Meta: e.Meta, ExpiresAt: e.ExpiresAt})
+	}
+	return out
+}
+
+func verifTable(t *table, withEntries bool) VerifTable {
+	vt := VerifTable{FID: t.fid, MinKey: kv.SafeCopy(nil, t.MinKey()), MaxKey: kv.SafeCopy(nil, t.MaxKey()), MaxVersion: t.MaxVersionVal()}
+	if withEntries {
+		vt.Entries = verifDrain(t.NewIterator(&utils.Options{IsAsc: true}))
+	}
+	return vt
+}
+
+// VerifLayout dumps the current layout.
+func (lsm *LSM) VerifLayout(withEntries bool) VerifLayout {
+	var out VerifLayout
+	lsm.lock.RLock()
+	mem := func(mt *memTable) VerifMem {
+		vm := VerifMem{SegmentID: mt.segmentID}
+		if withEntries {
+			vm.Entries = verifDrain(mt.NewIterator(&utils.Options{IsAsc: true}))
+		}
+		return vm
+	}
+	if lsm.memTable != nil {
+		out.Active = mem(lsm.memTable)
+	}
+	for _, mt := range lsm.immutables {
+		out.Immutables = append(out.Immutables, mem(mt))
+	}
+	lsm.lock.RUnlock()
+	out.MaxFID = lsm.levels.maxFID
+	for _, lh := range lsm.levels.levels {
+		lh.RLock()
+		vl := VerifLevel{Level: lh.levelNum}
+		for _, t := range lh.tables {
+			vl.Main = append(vl.Main, verifTable(t, withEntries))
+		}
+		for _, sh := range lh.ingest.shards {
+			var ts []VerifTable
+			for _, t := range sh.tables {
+				ts = append(ts, verifTable(t, withEntries))
+			}
+			var rs []uint64
+			for _, r := range sh.ranges {
+				rs = append(rs, r.tbl.fid)
+			}
+			vl.Shards = append(vl.Shards, ts)
+			vl.Ranges = append(vl.Ranges, rs)
+		}
+		lh.RUnlock()
+		out.Levels = append(out.Levels, vl)
+	}
+	return out
+}
+
+// VerifNumImmutables reports how many sealed memtables await flushing.
+func (lsm *LSM) VerifNumImmutables() int {
+	lsm.lock.RLock()
+	defer lsm.lock.RUnlock()
+	return len(lsm.immutables)
+}
+
+// VerifWaitFlushed waits until at most n sealed memtables remain.
+func (lsm *LSM) VerifWaitFlushed(n int, timeout time.Duration) error {
+	deadline := time.Now().Add(timeout)
+	for lsm.VerifNumImmutables() > n {
+		if time.Now().After(deadline) {
+			return errors.New("verif: flush wait timed out")
+		}
+		time.Sleep(200 * time.Microsecond)
+	}
+	return nil
+}
+
+// VerifCompact runs one compaction attempt of the given level and ingest mode
+// synchronously on compactor 0. baseLevel > 0 directs L0 moves to that level.
+func (lsm *LSM) VerifCompact(level int, mode int, baseLevel int) error {
+	lm := lsm.levels
+	t := lm.levelTargets()
+	if baseLevel > 0 {
+		t.BaseLevel = baseLevel
+	}
+	p := compact.Priority{Level: level, Score: 2, Adjusted: 2, Target: t, IngestMode: compact.IngestMode(mode)}
+	return lm.doCompact(0, p)
+}
+
+// VerifAgeTables makes every table look old enough for L0->L0 and max-level plans.
+func (lsm *LSM) VerifAgeTables(d time.Duration) {
+	for _, lh := range lsm.levels.levels {
+		lh.Lock()
+		for _, t := range lh.tables {
+			t.createdAt = t.createdAt.Add(-d)
+		}
+		for i := range lh.ingest.shards {
+			for _, t := range lh.ingest.shards[i].tables {
+				t.createdAt = t.createdAt.Add(-d)
+			}
+		}
+		lh.Unlock()
+	}
+}
